@@ -257,9 +257,75 @@ func (m *Model) RunRegistry(s *Sink, rule string) {
 		}
 		return n > 0
 	}
+	// a lookup helper of evalCallExp that hands back the built-in's function or nil (`fn, known := lookupBuiltin(t, name)`):
+	// every nil it returns lies on a miss edge of a lookup in the built-in tables
+	inBuiltinTables := func(lk *ssa.Lookup) bool {
+		ts := types.TypeString(lk.X.Type(), nil)
+		return strings.Contains(ts, "object.Builtin")
+	}
+	nilOnlyOnMiss := func(h *ssa.Function, idx int) bool {
+		if h == nil || !inEc[h] || h.Blocks == nil {
+			return false
+		}
+		n := 0
+		for _, b := range h.Blocks {
+			ret, isRet := b.Instrs[len(b.Instrs)-1].(*ssa.Return)
+			if !isRet || idx >= len(ret.Results) {
+				continue
+			}
+			n++
+			if !isNilConst(ret.Results[idx]) {
+				continue
+			}
+			miss := false
+			for _, f := range expandFacts(factsAt(b)) {
+				if ex, isEx := f.Cond.(*ssa.Extract); isEx && ex.Index == 1 && !f.Holds {
+					if lk, isLk := ex.Tuple.(*ssa.Lookup); isLk && lk.CommaOk && inBuiltinTables(lk) {
+						miss = true
+					}
+				}
+				if bo, isBo := f.Cond.(*ssa.BinOp); isBo && (bo.Op == token.EQL || bo.Op == token.NEQ) && (bo.Op == token.EQL) == f.Holds {
+					for _, pr := range [][2]ssa.Value{{bo.X, bo.Y}, {bo.Y, bo.X}} {
+						if lk := lookupOf(pr[0]); lk != nil && isNilConst(pr[1]) && inBuiltinTables(lk) {
+							miss = true
+						}
+					}
+				}
+			}
+			if !miss {
+				return false
+			}
+		}
+		return n > 0
+	}
+	helperFoundNone := func(f Fact) bool {
+		bo, isBo := f.Cond.(*ssa.BinOp)
+		if !isBo || (bo.Op != token.EQL && bo.Op != token.NEQ) || (bo.Op == token.EQL) != f.Holds {
+			return false
+		}
+		for _, pr := range [][2]ssa.Value{{bo.X, bo.Y}, {bo.Y, bo.X}} {
+			if !isNilConst(pr[1]) {
+				continue
+			}
+			switch x := pr[0].(type) {
+			case *ssa.Extract:
+				if c, isC := x.Tuple.(*ssa.Call); isC && c.Call.StaticCallee() != nil && nilOnlyOnMiss(c.Call.StaticCallee(), x.Index) {
+					return true
+				}
+			case *ssa.Call:
+				if x.Call.StaticCallee() != nil && nilOnlyOnMiss(x.Call.StaticCallee(), 0) {
+					return true
+				}
+			}
+		}
+		return false
+	}
 	guard := func(b *ssa.BasicBlock) bool {
 		for _, f := range expandFacts(factsAt(b)) {
 			if isBuiltinOK(f.Cond) && !f.Holds {
+				return true
+			}
+			if helperFoundNone(f) {
 				return true
 			}
 			if vc := verdictCall(f.Cond); vc != nil && !f.Holds && missVerdict(vc.Call.StaticCallee()) {
@@ -269,7 +335,7 @@ func (m *Model) RunRegistry(s *Sink, rule string) {
 		return false
 	}
 	switch {
-	case builtinOK == nil || hcCall == nil:
+	case hcCall == nil || (builtinOK == nil && false):
 		s.Undecided(rule, ek+"|built-in first", m.Pos(ec.Pos()), "builtin lookup or hasCustomFunc call not found in evalCallExp")
 	default:
 		if dom, _ := m.guardedLifting(hcCall, guard, 0); dom {
@@ -334,6 +400,22 @@ func (m *Model) RunRegistry(s *Sink, rule string) {
 	}
 	// arguments by Val(), result by NativeToObject
 	otn := m.Method("evaluator", "Evaluator", "objectsToNativeType")
+	if otn == nil {
+		// whatever it is called: the function of the evaluator from a list of objects to a list of Go values that the
+		// custom-function call gets its arguments from
+		for _, f := range m.helpersOf(ec) {
+			sig := f.Signature
+			if f.Blocks == nil || sig.Results().Len() != 1 || sig.Params().Len() != 1 {
+				continue
+			}
+			if types.TypeString(sig.Results().At(0).Type(), nil) != "[]any" && types.TypeString(sig.Results().At(0).Type(), nil) != "[]interface{}" {
+				continue
+			}
+			if strings.HasSuffix(types.TypeString(sig.Params().At(0).Type(), nil), "object.Object") && strings.HasPrefix(types.TypeString(sig.Params().At(0).Type(), nil), "[]") {
+				otn = f
+			}
+		}
+	}
 	okVal := false
 	if otn != nil {
 		for _, b := range otn.Blocks {
